@@ -1,4 +1,6 @@
 #![allow(dead_code)]
+#[cfg(mos_verif_threads)]
+use mos_simrt::std_shim as std;
 use crate::codegen::ProgramCounter;
 use crate::parser::Identifier;
 use once_cell::sync::OnceCell;
